@@ -46,6 +46,8 @@ def c_op(o):
         return "OGet %s" % vlib.cstr(o["k"])
     if t == "M":
         return "OMeta %s" % vlib.cstr(o["k"])
+    if t == "T":
+        return "OTree %s" % vlib.cstr(o["k"])
     if t == "F":
         return "OFlush"
     if t == "H":
@@ -83,6 +85,9 @@ def c_out(o):
     if r == "META":
         f = o["out"]
         return "(XMeta %s %s %s %s %s %s %s)" % (vlib.cZ(int(f[0])), f[1], f[2], f[3], f[4], f[5], f[6])
+    if r == "TREE":
+        f = o["out"]
+        return "(XTree %s %s %s %s)" % (vlib.cZ(int(f[0])), f[1], f[2], f[3])
     if r == "OK" and t == "C":
         f = o["out"]
         return "(XGc %s %s %s %s)" % (f[0], f[1], f[2], f[3])
@@ -385,6 +390,14 @@ def refmap_oracle(c, collide=False):
                     e.vers = e.vers | {0}
             else:
                 bad("get-error", "meta answered %s" % o["res"], idx)
+        elif t == "T":
+            # the index entry that replica synchronisation publishes: for a live key its value hash must be that of
+            # the (uncompressed) value last written, whatever rebuilt the index
+            if o["res"] == "TREE" and e and e.live and not collide:
+                f = o["out"]
+                if int(f[0]) > 0 and int(f[1]) != vhash(e.val):
+                    bad("index-vhash", "the index holds value hash %s for a live key whose value hashes to %d%s" % (
+                        f[1], vhash(e.val), " (after restart/GC)" if after_rebuild else ""), idx)
         elif t in ("R", "C"):
             after_rebuild = True
             if t == "R" and o["res"] != "OK":
